@@ -370,10 +370,26 @@ func buildOdt(alpha []odtKind, seq []int, o odtOpt, layout, cols string) odtCase
 		}
 		ls = used
 	}
-	if o.styles && layout != "auto" {
+	if o.styles && layout != "auto" && layout != "scope" {
 		c.opts.ListStyles = ls
 	} else {
 		c.opts.AutoListStyles = ls
+	}
+	if o.styles && layout == "scope" {
+		// style scope: styles.xml has its own automatic styles (for headers / footers) whose NAMES
+		// collide with content.xml's automatic styles but whose definitions differ (list kinds
+		// inverted, other parents). The body must be read with content.xml's definitions.
+		c.opts.StylesAutoListStyles = []odtw.ListStyle{
+			{Name: "L1", Levels: []odtw.ListLevel{{Number: true}, {Number: true}, {Number: true}}},
+			{Name: "L2", Levels: []odtw.ListLevel{{}, {}, {}}},
+			{Name: "L3", Levels: []odtw.ListLevel{{}, {}}},
+		}
+		c.opts.StylesAutoStyles = []odtw.Style{
+			{Name: "P1", Parent: "Heading_20_1", Bold: true},
+			{Name: "P3", Parent: "Heading_20_2"},
+			{Name: "P4", Parent: "Heading_20_3"},
+			{Name: "T1", Family: "text", Italic: true},
+		}
 	}
 	if o.styles {
 		c.opts.Styles = append(odtw.DefaultStyles(),
@@ -388,6 +404,9 @@ func buildOdt(alpha []odtKind, seq []int, o odtOpt, layout, cols string) odtCase
 	}
 	if o.footer {
 		c.doc.Footer = []odtw.Para{odtw.P("Ftr01 page")}
+		if layout == "scope" { // the footer uses styles.xml's own automatic P1
+			c.doc.Footer[0].Style = "P1"
+		}
 		c.x.ghosts = append(c.x.ghosts, ghost{"Ftr01", "footer", -1})
 	}
 	if firstItemNested(c.x.blocks) {
